@@ -39,6 +39,7 @@ META = {
         "before SAVE and before ACK; the exception seen at teardown is the task's exception iff propagation is on and the "
         "outcome failed. distinct_nontrivial = distinct terminal per-message logs."
         " Shared exception object: two executions fail with the very same exception instance (two waiters of one failed future) and finish functions and teardowns in every order."
+        " Three executions in flight at once finishing in every order."
     ),
     "assumptions": [
         "dependency functions are generated real functions recording open/close; taskiq_dependencies 1.5.7 is the pinned resolver (outside /repo)",
@@ -213,6 +214,15 @@ def scenarios(tier: str) -> List[Dict[str, Any]]:
                     out.append({"A": 2, "P": 1, "N": None, "stream": "finite", "stop": False, "level": lvl,
                                 "propagate": True, "ack_type": "when_saved", "deps": deps,
                                 "msgs": [_msg("return" if o1 == "fail" else o1, "sync"), _msg("return" if o2 == "fail" else o2, "sync")]})
+    # three executions in flight at once, finishing in every order (the middle one first, ...)
+    for shape in (("chain2",) if tier == "quick" else ("chain2", "2flat", "diamond")):
+        k = len(SHAPES[shape][1])
+        for styles in (("agen",) * k, ("cm", "agen", "gen")[:k]):
+            for outs in (("return", "return", "return"), ("raise", "return", "raise")):
+                deps = _deps(shape, styles, gated=False)
+                msgs = [dict(_msg(o, "sync"), body="gated") for o in outs]
+                out.append({"A": 3, "P": 1, "N": None, "stream": "finite", "stop": False, "level": 0,
+                            "propagate": True, "ack_type": "when_saved", "deps": deps, "msgs": msgs})
     # two executions failing with the very same exception object (two waiters of one failed future), finishing
     # their functions and their teardowns in every order
     for shape in (("chain2", "2flat") if tier == "quick" else ("chain2", "2flat", "chain3")):
